@@ -188,7 +188,7 @@ pub fn gen_unit(r: &mut Rng, enc: Enc, max_nodes: usize) -> DieUnit {
     while !open.is_empty() {
         max_depth = max_depth.max(open.len());
         let depth = open.len();
-        let choice = if nodes >= max_nodes { 2 } else { r.below(if depth >= 5 { 7 } else { 9 }) };
+        let choice = if nodes >= max_nodes { 5 } else { r.below(if depth >= 5 { 7 } else { 9 }) };
         match choice {
             0..=3 => {
                 // leaf
